@@ -274,3 +274,18 @@ Theorem quorums_share_a_validator : forall (p : list (Z * Z)) (t : Z) (vs1 vs2 :
   100 * power p vs1 > 66 * t -> 100 * power p vs2 > 66 * t -> exists v, In v vs1 /\ In v vs2.
 Proof. exact quorums_intersect. Qed.
 Print Assumptions quorums_share_a_validator.
+
+(** Third round: whose votes.  [Vote v known c] abbreviates [VoteBy v v known c]: the claim message was
+    created (and, by the ante handler, signed) by validator [v]'s own account; [accepted_vote] — the
+    votes the headline theorems count — are such messages only.  A message created by any other
+    account that merely NAMES [v] as orchestrator is refused for all three claim types and changes
+    nothing; the guard is read per claim handler from the source. *)
+Theorem only_the_validator_itself_votes : forall (s : state) (sg v : Z) (known : bool) (c : claim),
+  sg <> v -> vote_ok s sg v known c = false /\ step s (VoteBy sg v known c) = s.
+Proof. exact foreign_vote_refused. Qed.
+Print Assumptions only_the_validator_itself_votes.
+
+Theorem model_is_of_current_source_3 :
+  Gen.C02.creator_bound_deposit = true /\ Gen.C02.creator_bound_batch = true /\ Gen.C02.creator_bound_sale = true.
+Proof. exact source_facts3. Qed.
+Print Assumptions model_is_of_current_source_3.
